@@ -531,6 +531,9 @@ def run_subsets(ctx, only=None):
                     cot = cot_for(out)
                     gX, gS = torch.autograd.grad(out, [Xl, Sl], cot)
                     ctx.note_case(("subsets", g, dtype, name), True)
+                    if not all(bool(torch.isfinite(t_).all()) for t_ in (out, gX, gS)):
+                        ctx.fail(case, f"nan: non-finite result: value / gradient of {name} on {g} contains NaN/Inf for finite valid operands ({dtype})")
+                        continue
                     if not bool((gX != 0).any()) or not bool((gS != 0).any()):
                         ctx.fail(case, f"subsets: a reference gradient of {name} on {g} is identically zero ({dtype})")
                         continue
